@@ -63,7 +63,19 @@ def pipeline(tier, seed):
             with open(part) as pf:
                 shutil.copyfileobj(pf, tf)
             os.unlink(part)
-    return {"progs": progs, "progs_path": progs_path, "tables_path": tables_path, "trace": trace, "model": m,
+    # the same programs on a chain: sub-messages built by the generated builders, run and answered by cw-multi-test (Chain.tla)
+    chain_trace = os.path.join(gdir, "trace_chain.ndjson")
+    with open(chain_trace, "w") as tf:
+        for b, ids in bins:
+            part = os.path.join(gdir, "trace_chain_%s.ndjson" % b)
+            rc, out, _ = run([os.path.join(TARGET, "debug", b), progs_path, part, "chain"], timeout=900)
+            if rc != 0:
+                raise ToolError("reply corpus binary %s (chain mode) failed:\n%s" % (b, out[-3000:]))
+            with open(part) as pf:
+                shutil.copyfileobj(pf, tf)
+            os.unlink(part)
+    cm = tlc_model("MC_Chain", "MC_Chain_%s.cfg" % tier, env={"VERIF_PROGS": progs_path}, workers=8, timeout=1800, coverage=(tier == "thorough"))
+    return {"chain_trace": chain_trace, "chain_model": cm, "progs": progs, "progs_path": progs_path, "tables_path": tables_path, "trace": trace, "model": m,
             "failed": failed, "wall": time.time() - t0}
 
 
@@ -117,6 +129,48 @@ def validate(prop, p, report):
         if pid in progs:
             files["program.json"] = {k: progs[pid][k] for k in progs[pid] if k != "stim"}
             files["program.rs"] = gen_replies.program_src(progs[pid])
+        report.violation(key, what, files)
+    return v
+
+
+def validate_chain(prop, p, report):
+    """Trace_Chain over the transactions of the chain corpus; clauses of `prop` only."""
+    v = tlc_trace("Trace_Chain", "Trace_Chain.cfg", p["chain_trace"], env={"VERIF_PROGS": p["progs_path"], "VERIF_FOCUS": prop}, timeout=3000,
+                  resync="reset")
+    events = None
+    progs = {x["id"]: x for x in p["progs"]}
+    seen = set()
+    for rej in sorted(v["rejections"], key=lambda r: r["index"]):
+        if events is None:
+            events = read_ndjson(p["chain_trace"])
+        ev = rej["event"]
+        i = rej["index"] - 1
+        while i >= 0 and events[i].get("ev") not in ("ChainFire", "ChainInit"):
+            i -= 1
+        ctx = events[i] if i >= 0 else {}
+        j = i
+        while j >= 0 and events[j].get("ev") != "ChainInit":
+            j -= 1
+        pid = events[j].get("prog") if j >= 0 else ctx.get("prog")
+        mine = [b for a, b in rej["failed"] if a == prop]
+        if not rej["failed"]:
+            mine = ["event_not_explained_by_the_specification"]
+        if not mine:
+            continue
+        prog = progs.get(pid)
+        shape = ""
+        if prog:
+            shape = ";".join("%s:%s:%s:%s" % (",".join(m["handlers"]) or "-", m["on"], m["data"], m["payload"]) for m in prog["methods"])
+        key = "%s|chain:%s:%s|%s" % (mine[0], ctx.get("kind"), ctx.get("mode"), shape)
+        if key in seen:
+            continue
+        seen.add(key)
+        what = "%s: clause `%s` fails at event %d (%s) of the chain corpus, program %s; transaction: handler=%s kind=%s mode=%s" % (
+            prop, mine[0], rej["index"], ev.get("ev"), pid, ctx.get("h"), ctx.get("kind"), ctx.get("mode"))
+        files = {"event.json": ev, "transaction.json": ctx, "tlc.txt": rej["out"]}
+        if prog:
+            files["program.json"] = {k: prog[k] for k in prog if k not in ("stim", "chain")}
+            files["program.rs"] = gen_replies.program_src(prog)
         report.violation(key, what, files)
     return v
 
@@ -177,6 +231,7 @@ def run_property(prop, tier, seed, note, with_tables=False):
     rep = common.Report(prop)
     p = pipeline(tier, seed)
     v = validate(prop, p, rep)
+    cv = validate_chain(prop, p, rep) if prop in ("C07", "C08", "C09") else None
     ntab = 0
     tv = None
     if with_tables:
@@ -197,6 +252,9 @@ def run_property(prop, tier, seed, note, with_tables=False):
            "trace_events": v["events"], "reply_programs_compiled": len(p["progs"]), "programs_failing_to_build": sorted(p["failed"]),
            "replies_dispatched": sum(1 for pr in p["progs"] for s in pr["stim"] if s["op"] == "reply") * 3,
            "tables_expanded_in_process": ntab,
+           "chain_model_states": p["chain_model"]["distinct"],
+           "chain_transactions": sum(len(pr.get("chain", [])) for pr in p["progs"] if pr["id"] not in p["failed"]),
+           "chain_trace_events": cv["events"] if cv else 0,
            "samples": evs, "exhaustive": False, "explanation": note}
     common.write_evidence(prop, tier, seed, cov, time.time() - t0, len(rep.violations))
     return rc
